@@ -4,6 +4,7 @@ import (
 	"fmt"
 	gofs "io/fs"
 	"os"
+	"path"
 	"strings"
 
 	"github.com/hack-pad/hackpadfs"
@@ -96,6 +97,14 @@ func runC09(r *Rng, n int, replay string) {
 					c.fail(c.Text[0]+": an invalid directory was accepted", "sub:accepted")
 				}
 				fs = sub.(*hpos.FS)
+				// the new root is exactly the old root joined with dir ("" stays the top)
+				want := path.Join(before, dir)
+				if want == "." {
+					want = ""
+				}
+				if got := fs.RootVerif(); got != want {
+					c.fail(fmt.Sprintf("%s: the new root is %q, the old root joined with the directory is %q", c.Text[0], got, want), "sub:root")
+				}
 				c.Coq = fmt.Sprintf("CSub %s %s (Some %s)", cStr(before), cStr(dir), cStr(fs.RootVerif()))
 			}
 			emitC(c)
